@@ -666,6 +666,17 @@ func runNarrow(c *Ctx, r *Reporter) {
 // same SSA value) with a constant or len bound, and the conversion lies on one side.
 func guardedByRangeCheck(cv *ssa.Convert) bool {
 	x := cv.X
+	// a byte taken out of a checked value by shifting or masking (byte(o>>8), byte(o&0xff)): the check is on o
+	for {
+		bo, ok := x.(*ssa.BinOp)
+		if !ok || (bo.Op != token.SHR && bo.Op != token.AND) {
+			break
+		}
+		if _, isConst := bo.Y.(*ssa.Const); !isConst {
+			break
+		}
+		x = bo.X
+	}
 	blk := cv.Block()
 	for d := blk.Idom(); d != nil; d = d.Idom() {
 		if len(d.Instrs) == 0 {
@@ -922,6 +933,14 @@ func sliceFlowsToPatch(v ssa.Value, change *ssa.Function, fn *ssa.Function) bool
 				if bi, ok := x.Call.Value.(*ssa.Builtin); ok && bi.Name() == "append" {
 					work = append(work, x)
 				}
+				// handed (as a list, typically the variadic one) to a helper that patches every position in it
+				if h := x.Call.StaticCallee(); h != nil && h != change && h.Pkg == fn.Pkg {
+					for ai, a := range x.Call.Args {
+						if a == cur && listPatcher(h, ai, change) {
+							return true
+						}
+					}
+				}
 			case *ssa.Phi:
 				work = append(work, x)
 			case *ssa.Store:
@@ -1115,6 +1134,14 @@ func breaksDiscipline(p *Program, pkg *packages.Package, change *ssa.Function, r
 					if x.Call.StaticCallee() == change && inCycle(b) && len(x.Call.Args) >= 2 {
 						if derivesFromField(x.Call.Args[1], "breaks", 6) {
 							patches = true
+						}
+					}
+					// a helper that is handed c.breaks as a list and patches every position in it
+					if h := x.Call.StaticCallee(); h != nil && h != change && h != sf && h.Pkg == sf.Pkg {
+						for ai, a := range x.Call.Args {
+							if derivesFromField(a, "breaks", 4) && listPatcher(h, ai, change) {
+								patches = true
+							}
 						}
 					}
 					// a helper of the compiler that ranges c.breaks into changeOperand on every success path
@@ -1680,4 +1707,52 @@ func copyReadAfter(a *ssa.Alloc, st *ssa.Store) bool {
 		}
 	}
 	return false
+}
+
+// listPatcher: h ranges its idx-th parameter (a list of jump positions) into changeOperand, in a loop that every
+// success path of h passes: handing h a list patches every position in it.
+func listPatcher(h *ssa.Function, idx int, change *ssa.Function) bool {
+	if h == nil || len(h.Blocks) == 0 || idx >= len(h.Params) {
+		return false
+	}
+	prm := h.Params[idx]
+	if _, isSlice := prm.Type().Underlying().(*types.Slice); !isSlice {
+		return false
+	}
+	var fromParam func(v ssa.Value, depth int) bool
+	fromParam = func(v ssa.Value, depth int) bool {
+		if depth > 6 {
+			return false
+		}
+		switch x := v.(type) {
+		case *ssa.Parameter:
+			return x == prm
+		case *ssa.UnOp:
+			return fromParam(x.X, depth+1)
+		case *ssa.IndexAddr:
+			return fromParam(x.X, depth+1)
+		case *ssa.Index:
+			return fromParam(x.X, depth+1)
+		case *ssa.Extract:
+			return fromParam(x.Tuple, depth+1)
+		case *ssa.Next:
+			return fromParam(x.Iter, depth+1)
+		case *ssa.Range:
+			return fromParam(x.X, depth+1)
+		case *ssa.Slice:
+			return fromParam(x.X, depth+1)
+		}
+		return false
+	}
+	var loops []*ssa.BasicBlock
+	for _, b := range h.Blocks {
+		for _, ins := range b.Instrs {
+			if c, ok := ins.(*ssa.Call); ok && c.Call.StaticCallee() == change && inCycle(b) && len(c.Call.Args) >= 2 && fromParam(c.Call.Args[1], 0) {
+				if hd := loopHeaderOf(b); hd != nil {
+					loops = append(loops, hd)
+				}
+			}
+		}
+	}
+	return len(loops) > 0 && successPathAvoiding(h.Blocks[0], loops) == ""
 }
